@@ -24,6 +24,19 @@ NOT_APPLICABLE = {
 
 # id -> (technique, level text, level note, design ref)
 CLAIMS = {
+    'C06': ('table agreement (keys vs parameters), neutral-default lint, omega-family provenance of the host-copy loops',
+            'Static, exhaustive over maketracerpreene: decides that the generator returns exactly the missing '
+            'preene2betafree parameters, that solute and interaction data are neutral with the documented sizes, and '
+            'that every omega1/omega2 transition state copies the omega0 data of its own recorded jump type without '
+            'mixing families. The tracer identities themselves are numerical and not decided.',
+            'trusts CPython ast', 'DESIGN.md §4 C06'),
+    'C15': ('table agreement across generator/consumer/printer, size provenance of tag lists vs arrays, statement-order '
+            'rule, symbolic template expansion for cross-type disjointness, stale-loop-variable def-use lint',
+            'Static, exhaustive over the tag pipeline: decides that tag types, rows and arrays line up (class n <-> entry n), '
+            'that defaults are neutral and unshared, that the LIMB back-fill is ordered between the override blocks, that '
+            'overrides write the class index they were found under, that the verbose report predicates are in place, and '
+            'that tags of different types cannot coincide. Uniqueness inside a type is a run-time check and not decided.',
+            'trusts CPython ast', 'DESIGN.md §4 C15'),
     'C02': ('exchange-symmetry of canonicalised rate expressions, sibling comparison of canonicalised assembly statements '
             'and cross-module rate formulas, solver-branch lint, dimension-context analysis',
             'Static, exhaustive over the interstitial assembly: decides that the symmetrised rate is endpoint-symmetric, '
